@@ -101,6 +101,7 @@ struct World {
     // candidate simplifications of one op, simplest first (for the shrinker)
     virtual std::vector<Op> simpler(const Op &op) const { (void)op; return {}; }
     virtual std::vector<Knobs> simpler_knobs(const Knobs &k) const { (void)k; return {}; }
+    virtual bool merge(const Op &a, const Op &b, Op &out) const { (void)a; (void)b; (void)out; return false; }   // two adjacent ops that one op can stand for (e.g. two clock advances)
     virtual double sim_seconds_stat() const { return -1; }          // index of a counter holding simulated ms, or -1
 };
 
